@@ -47,7 +47,8 @@ pub fn run(rep: &mut Rep) {
         let a = if m.is_some() { &am } else { &a };
         let depth = if m.is_some() || via_auth { depth - 1 } else { depth };
         let body = |rep: &mut Rep, ch: &mut Chooser| {
-            let mut w = World::boot(WorldCfg { seed, receive_max: Some(r), max_packet: m, h3: true, via_auth: Some(via_auth), ..Default::default() });
+            // (Receive Maximum 3: identifiers from 254 on, so that histories straddle 255 / 256)
+            let mut w = World::boot(WorldCfg { seed, receive_max: Some(r), max_packet: m, h3: true, via_auth: Some(via_auth), seed_ids: if r == 3 { Some((254, 1)) } else { None }, ..Default::default() });
             // with Receive Maximum 2 every third publish carries RETAIN, a content type and a user property: options do not
             // change what counts against the window
             w.rich_pubs = r == 2 && m.is_none();
@@ -375,7 +376,9 @@ fn with_traffic_in_the_other_direction(rep: &mut Rep) {
         }
         let seed = rep.seed.wrapping_mul(1_000_003).wrapping_add(k);
         let mut rng = Rng::new(seed);
-        let mut w = World::boot(WorldCfg { seed, receive_max: Some(1 + (k % 3) as u16), h3: true, order: (k % 4) as u8, ..Default::default() });
+        // packet identifiers start at 1, just below / at 256, at 0x7fff, near the wrap
+        let ids = [1u16, 250, 255, 256, 300, 0x7ffe, 65530][(k % 7) as usize];
+        let mut w = World::boot(WorldCfg { seed, receive_max: Some(1 + (k % 3) as u16), h3: true, order: (k % 4) as u8, seed_ids: Some((ids, 1)), ..Default::default() });
         let acts = run_walk(&mut w, &a, &mut rng, 90);
         let pubrels = acts.iter().filter(|x| matches!(x, Act::InRel(_))).count();
         probe_and_report(rep, &mut w, &id);
